@@ -1,9 +1,216 @@
 import Driver.Codec
-/-! Protocol ops of the `Isolation` cluster: decode, call the model, print. -/
+import Driver.OpsDirective
+import Driver.OpsExample
+import XdocModel.World
+import XdocModel.Bracket
+/-!
+Protocol ops of the `Isolation` cluster (C11 world model, C12 bracket model): decode, call the
+model, print.
+
+`history <modglobals> <sat> <n> <doc>*n <steps>`
+* modglobals = `NAME=VAL,…|~`
+* doc = `<cfg>#<part>#<part>…`, cfg = `<pytest 0|1>;<importOk 0|1>;<hasModule 0|1>;<defaults NAME=1,…|~>;<reportKey>`
+* part = `<stmts>@<exec|eval|single>@<want N|lines>@<directives>`, stmts `/`-joined:
+  `n` (comment line) | `z` (statement without modelled effect) | `b.NAME.VAL` | `s.NAME` | `i.NAME` | `q.NAME` | `p.VAL` | `m` | `f` | `x`
+* steps = `,`-joined `<doc index><r|e>` (r = on_error='return', e = 'raise')
+Answer: one record per step, TAB-joined:
+`<ending> <pfs> <kind|-> <idx|-> <tb|-> skipped=… executed=… logged=<i:str|…> start=<rstate> ns=<ns> mod=<ns> tmpl=<req>`
+
+`ppc <path> <events>` events `|`-joined: `new:<dpath>:<index>` `enter:<k>` `exit:<k>` `ins:<i>:<x>` `app:<x>` `rem:<x>` `pop`
+Answer: per event `<result>/<path>` TAB-joined (result: `idx=<stored>`, exit result, or `-`).
+
+`runbracket <stdout,stderr,filtersId,show,impl> <filter items> <path> <pre> <part>*`
+* pre = `none` | `<dpath>:<index>:<ops>:<ending>` (import body inside `PythonPathContext`)
+* part = `<ops>:<ending>:<goesOn 0|1>:<logRaises 0|1>`; ops `/`-joined (`~` none): `so.N` `se.N` `af.N` `rf.N` `sw.N`
+  `pi.I.X` `pa.X` `pr.X` `pp`; ending = `n|e|s|k`
+Answer: `<ending> out=<n> err=<n> filt=<id>:<items> show=<n> impl=<n> path=<list>`
+-/
 namespace Xdoc.Driver
-open Xdoc
+open Xdoc Py
+
+def decNS (f : String) : NS :=
+  if f == "~" then [] else (f.splitOn ",").filterMap fun e =>
+    match e.splitOn "=" with
+    | [k, v] => some (k, v.toNat!)
+    | _ => none
+
+def encNS (ns : NS) : String :=
+  if ns.isEmpty then "~" else ",".intercalate (ns.map fun (k, v) => s!"{k}={v}")
+
+def decStmt (f : String) : Stmt :=
+  match f.splitOn "." with
+  | ["n"] => .nop
+  | ["b", n, v] => .bind n v.toNat!
+  | ["s", n] => .show n
+  | ["i", n] => .inc n
+  | ["q", n] => .probe n
+  | ["p", v] => .say v.toNat!
+  | ["m"] => .mute
+  | ["f"] => .fail
+  | ["x"] => .exit
+  | _ => .nop
+
+def decMode (f : String) : CompileMode :=
+  if f == "eval" then .eval else if f == "single" then .single else .exec
+
+/-- one part: the run-loop part (exec lines synthesised: a comment for `nop`) and its statements -/
+def decMiniPart (f : String) : RunPart × List Stmt :=
+  match f.splitOn "@" with
+  | [stmts, mode, want, dirs] =>
+    let codes := stmts.splitOn "/"
+    let ss := codes.map decStmt
+    ({ part := { execLines := codes.map (fun c => if c == "n" then "#".toList else "x".toList),
+                 wantLines := if want == "N" then none else some (decStrList want),
+                 compileMode := decMode mode },
+       directives := decDirectives dirs }, ss)
+  | _ => ({ part := { execLines := [] } }, [])
+
+def decMiniDoc (f : String) : DocDef × List (List Stmt) :=
+  match f.splitOn "#" with
+  | cfg :: parts =>
+    let ps := parts.map decMiniPart
+    (match cfg.splitOn ";" with
+     | [pyt, imp, hm, defaults, rk] =>
+       ({ parts := ps.map (·.1), pytestMode := pyt == "1", importOk := imp == "1", hasModule := hm == "1",
+          defaults := decBoolAssoc defaults, reportKey := rk }, ps.map (·.2))
+     | _ => ({ parts := ps.map (·.1) }, ps.map (·.2)))
+  | [] => ({ parts := [] }, [])
+
+def decSteps (f : String) : History :=
+  if f == "~" then [] else (f.splitOn ",").map fun t =>
+    let oe := if t.endsWith "e" then OnError.raise else OnError.ret
+    ((t.dropEnd 1).toString.toNat!, oe)
+
+def encLogged (l : List (Nat × Str)) : String :=
+  if l.isEmpty then "~" else "|".intercalate (l.map fun (i, s) => s!"{i}:{encStr s}")
+
+def encOutcome (o : Outcome) (st : Option DocState) (w : World) : String :=
+  let s := o.summary
+  let showTb := match o.failure with | some f => f.kind == FailKind.exception | none => false
+  " ".intercalate [
+    endName o.ending,
+    encBool s.passed ++ encBool s.failed ++ encBool s.skipped,
+    (o.failure.map (fun f => failKindName f.kind)).getD "-",
+    (o.failure.map (fun f => if f.kind == FailKind.importError then "-" else toString f.partIdx)).getD "-",
+    (if showTb then (o.failure.map (fun (f : Failure) => toString f.tbLineno)).getD "-" else "-"),
+    "skipped=" ++ encNatList o.skipped,
+    "executed=" ++ encNatList o.executed,
+    "logged=" ++ encLogged o.logged,
+    "start=" ++ (encRState o.startRs).replace " " "/",
+    "ns=" ++ (match st with | some st => encNS st.ns | none => "?"),
+    "mod=" ++ encNS w.moduleGlobals,
+    "tmpl=" ++ encStrList w.template.req]
+
+/-- run the history, one record per step -/
+def runHistory (P : Prog) (sat : Str → Option Bool) (sem : Sem) : World → History → List String
+  | _, [] => []
+  | w, (i, oe) :: h =>
+    let r := runDoc P sat sem w i oe
+    encOutcome r.2 r.1.docs[i]? r.1 :: runHistory P sat sem r.1 h
+
+/-! ### PythonPathContext histories -/
+
+def decInt (f : String) : Int :=
+  if f.startsWith "-" then - ((f.drop 1).toString.toNat! : Int) else (f.toNat! : Int)
+
+def exitName : ExitResult → String
+  | .clean => "clean" | .recovered => "recovered" | .runtimeError => "RuntimeError" | .indexError => "IndexError"
+
+def ppcEvents : List (String × Int) → List String → List String → List String
+  | _, _, [] => []
+  | objs, path, ev :: rest =>
+    let out := fun (r : String) (p : List String) => r ++ "/" ++ encStrList (p.map String.toList)
+    match ev.splitOn ":" with
+    | ["new", d, i] => out "-" path :: ppcEvents (objs ++ [(String.ofList (decStr d), decInt i)]) path rest
+    | ["enter", k] =>
+      (match objs[k.toNat!]? with
+       | some (d, i) =>
+         let en := ppcEnter d i path
+         out s!"idx={en.1}" en.2 :: ppcEvents (objs.set k.toNat! (d, en.1)) en.2 rest
+       | none => ["bad-object"])
+    | ["exit", k] =>
+      (match objs[k.toNat!]? with
+       | some (d, i) =>
+         let ex := ppcExit d i path
+         out (exitName ex.2) ex.1 :: ppcEvents objs ex.1 rest
+       | none => ["bad-object"])
+    | ["ins", i, x] =>
+      let p := pyInsert path (decInt i) (String.ofList (decStr x))
+      out "-" p :: ppcEvents objs p rest
+    | ["app", x] =>
+      let p := path ++ [String.ofList (decStr x)]
+      out "-" p :: ppcEvents objs p rest
+    | ["rem", x] =>
+      let p := path.erase (String.ofList (decStr x))
+      out "-" p :: ppcEvents objs p rest
+    | ["pop"] => out "-" path.dropLast :: ppcEvents objs path.dropLast rest
+    | _ => ["bad-event"]
+
+/-! ### the run bracket -/
+
+def decEnding (f : String) : Ending :=
+  if f == "e" then .exception else if f == "s" then .systemExit else if f == "k" then .keyboardInterrupt
+  else .normal
+
+def endingName : Ending → String
+  | .normal => "normal" | .exception => "exception" | .systemExit => "SystemExit"
+  | .keyboardInterrupt => "KeyboardInterrupt"
+
+def decPOp (f : String) : Option POp :=
+  match f.splitOn "." with
+  | ["so", n] => some (.setStdout n.toNat!)
+  | ["se", n] => some (.setStderr n.toNat!)
+  | ["af", n] => some (.addFilter n.toNat!)
+  | ["rf", n] => some (.rebindFilters n.toNat!)
+  | ["sw", n] => some (.setShowwarning n.toNat!)
+  | ["pi", i, x] => some (.pathInsert (decInt i) (String.ofList (decStr x)))
+  | ["pa", x] => some (.pathAppend (String.ofList (decStr x)))
+  | ["pr", x] => some (.pathRemove (String.ofList (decStr x)))
+  | ["pp"] => some .pathPop
+  | _ => none
+
+def decPOps (f : String) : List POp :=
+  if f == "~" then [] else (f.splitOn "/").filterMap decPOp
+
+def decPartBody (f : String) : PartBody :=
+  match f.splitOn ":" with
+  | [ops, e, cont, lr] =>
+    { body := opsBody (decPOps ops) (decEnding e), goesOnAfterException := cont == "1",
+      logRaises := fun _ => lr == "1" }
+  | _ => { body := opsBody [] .normal }
+
+def decPre (f : String) : Body :=
+  match f.splitOn ":" with
+  | [d, i, ops, e] => fun st =>
+    let r := withPPC (String.ofList (decStr d)) (decInt i) (opsBody (decPOps ops) (decEnding e)) st
+    -- `_custom_import_modpath`: an Exception of the import or of `__exit__` becomes a RuntimeError
+    (r.1, r.2.1)
+  | _ => fun st => (st, .normal)
+
+def encPState (st : PState) : String :=
+  s!"out={st.stdout} err={st.stderr} filt={st.filters.id}:{encNatList st.filters.items} show={st.showwarning} impl={st.showwarnmsgImpl} path={encStrList (st.sysPath.map String.toList)}"
 
 def opsIsolation : List String → Option String
+  | "history" :: mg :: sat :: n :: rest =>
+    let n := n.toNat!
+    let docs := (rest.take n).map decMiniDoc
+    let steps := decSteps ((rest.drop n).headD "~")
+    let P : Prog := docs.map (·.1)
+    let code := docs.map (·.2)
+    let w0 := World.initial P (decNS mg)
+    some ("\t".intercalate (runHistory P (decSat sat) (semMini code) w0 steps))
+  | ["ppc", path, events] =>
+    let evs := if events == "~" then [] else events.splitOn "|"
+    some ("\t".intercalate (ppcEvents [] ((decStrList path).map String.ofList) evs))
+  | "runbracket" :: ids :: items :: path :: pre :: parts =>
+    match decNatList ids with
+    | [so, se, fid, sw, impl] =>
+      let st : PState := { stdout := so, stderr := se, filters := { id := fid, items := decNatList items },
+                           showwarning := sw, showwarnmsgImpl := impl,
+                           sysPath := (decStrList path).map String.ofList }
+      let r := runBracket 900 901 902 903 (decPre pre) (parts.map decPartBody) st
+      some (endingName r.2 ++ " " ++ encPState r.1)
+    | _ => none
   | _ => none
 
 end Xdoc.Driver
